@@ -6,6 +6,6 @@ fail=0
 run() { # name patch prop
   out=$(tools/run_mutant.sh "$2" "$3" 2>&1); if echo "$out" | grep -q "VIOLATION property=$3"; then echo "caught   $1 by $3"; else echo "MISSED   $1 by $3 :: $(echo "$out" | grep -E 'rc=|apply|MACHINERY' | head -2 | tr '\n' ' ')"; fail=1; fi
 }
-for d in seeded/*/; do id=$(basename $d); prop=$(python3 -c "import json;print(json.load(open('$d/meta.json'))['breaks_property'])"); run "$id" "/verif/$d/patch.diff" "$prop"; done
+for d in seeded/*/; do id=$(basename $d); grep -q '"retired"' $d/meta.json && { echo "retired  $id"; continue; }; prop=$(python3 -c "import json;print(json.load(open('$d/meta.json'))['breaks_property'])"); run "$id" "/verif/$d/patch.diff" "$prop"; done
 for m in mutants/*.patch; do name=$(basename $m .patch); prop=$(grep -h property= mutants/$name.meta | cut -d= -f2); case "$name" in m07*|m12*|m15*|n08*|n22*|n25*|n27*|n28*) continue;; esac; run "$name" "/verif/$m" "$prop"; done
 exit $fail
